@@ -506,8 +506,10 @@ def r_subst(text, table):
 
 
 def r_if_constexpr(text):
-    """R6"""
-    return re.subn(r"\bif\s+constexpr\s*\(", "if (", text)
+    """R6: `if constexpr (c)` -> `if (c)`;  R23: a constexpr local object -> const object"""
+    text, n = re.subn(r"\bif\s+constexpr\s*\(", "if (", text)
+    text, m = re.subn(r"\b(?:static\s+)?constexpr\s+(?=[A-Za-z_])", "const ", text)
+    return text, n + m
 
 
 def r_index(text, names, suffix=".m_data"):
@@ -757,13 +759,14 @@ def r_hoist_statics(text, fname):
     """R18: function-local static / thread_local objects are hoisted to file
     scope under a mangled name (dfcc exempts local statics from frame checks)."""
     hoisted = []
-    rx = re.compile(r"(?m)^(\s*)((?:static|thread_local)\b(?:\s+(?:static|thread_local|const|constexpr))*)\s+([^;=()]+?)\s*\b([A-Za-z_]\w*)\s*(=\s*[^;]*)?;")
+    rx = re.compile(r"(?m)^(\s*)((?:static|thread_local)\b(?:\s+(?:static|thread_local|const|constexpr))*)\s+([^;=()\[\]]+?)\s*\b([A-Za-z_]\w*)\s*((?:\[[^\]]*\]\s*)*)(=\s*[^;]*)?;")
     def rep(m):
         quals = m.group(2)
-        ty, name, init = m.group(3), m.group(4), m.group(5) or ""
+        ty, name, arr, init = m.group(3), m.group(4), m.group(5) or "", m.group(6) or ""
         mangled = "verif_static_%s_%s" % (fname, name)
         tl = "__thread " if "thread_local" in quals else ""
-        hoisted.append((name, mangled, "%sstatic %s %s %s;" % (tl, ty, mangled, init)))
+        cq = "const " if re.search(r"\bconst(expr)?\b", quals) else ""
+        hoisted.append((name, mangled, "%sstatic %s%s %s%s %s;" % (tl, cq, ty, mangled, arr, init)))
         return m.group(1) + "/* R18: static hoisted to file scope as %s */" % mangled
     text = rx.sub(rep, text)
     for name, mangled, _ in hoisted:
